@@ -406,9 +406,17 @@ def r3(ctx, F, rule, sfx):
     ctx.check(rule, 'decision-depends-on-the-examined-vertex-only' + sfx, dep_ok and not leak, 'side value mentions %s%s' % ('vertices[cursor]' if dep_ok else 'no examined vertex', (' and the loop counters %s' % leak) if leak else ''),
               'a function of vertices[i], the new plane and the cell (not of i, num_v, num_r)', w, key_extra='part-decision')
     # recurrences on the two arms
+    dforms = {dtxt}
+    for b_ in (True, False):
+        try:
+            dforms.add(repr(dtab.evaluate(as_rf(dval), lambda leaf, b_=b_: b_)))
+        except (AnalysisIncomplete, TypeError):
+            pass
+
     def is_dec(leaf):
+        # the side value as written, or with its tie gate resolved (filter value / exact predicate)
         t = is_removal_test(leaf)
-        return t if (t is not None and repr(t[1]) == dtxt) else None
+        return t if (t is not None and repr(t[1]) in dforms) else None
 
     def under(removed):
         def val(leaf):
